@@ -5,6 +5,7 @@ import (
 
 	"github.com/cosmos/cosmos-sdk/codec"
 	sdk "github.com/cosmos/cosmos-sdk/types"
+	sdkerrors "github.com/cosmos/cosmos-sdk/types/errors"
 
 	"github.com/hyperledger/burrow/acm"
 	"github.com/hyperledger/burrow/acm/acmstate"
@@ -98,8 +99,15 @@ func (s *State) UpdateAccount(updatedAccount *acm.Account) error {
 		cvmCode = types.NewCVMCode(types.CVMCodeTypeEVMCode, updatedAccount.EVMCode)
 	}
 	s.store.Set(types.CodeStoreKey(updatedAccount.Address), s.cdc.MustMarshalBinaryBare(&cvmCode))
+	bondDenom := s.sk.BondDenom(s.ctx)
+	// Module accounts receive coins only through the bank module, which refuses plain sends to them: the
+	// modules keep exact books of what their accounts hold. The VM must not credit them either (a call
+	// carrying value, an inner CALL, a SELFDESTRUCT naming one as beneficiary).
+	if s.bk.BlockedAddr(address) && updatedAccount.Balance > s.bk.GetBalance(s.ctx, address, bondDenom).Amount.Uint64() {
+		return sdkerrors.Wrapf(sdkerrors.ErrUnauthorized, "%s is not allowed to receive funds", address)
+	}
 	// the VM only knows the bond denomination: write that balance back and leave every other denomination alone
-	err := s.bk.SetBalance(s.ctx, address, sdk.NewInt64Coin(s.sk.BondDenom(s.ctx), int64(updatedAccount.Balance)))
+	err := s.bk.SetBalance(s.ctx, address, sdk.NewInt64Coin(bondDenom, int64(updatedAccount.Balance)))
 	if err != nil {
 		return err
 	}
